@@ -292,6 +292,8 @@ where
                         if let Some(mut data) = data {
                             payload.append(&mut data);
                         }
+                        // a dlt msg is limited to a len of u16::MAX:
+                        payload.truncate(u16::MAX as usize - self.len_wo_payload as usize);
 
                         let index = self.index;
                         self.index += 1;
@@ -381,6 +383,8 @@ where
                         if let Some(mut data) = data {
                             payload.append(&mut data);
                         }
+                        // a dlt msg is limited to a len of u16::MAX:
+                        payload.truncate(u16::MAX as usize - self.len_wo_payload as usize);
                         // return a DltMessage
                         let index = self.index;
                         self.index += 1;
@@ -507,14 +511,19 @@ where
                                     let mut payload: Vec<u8> =
                                         SERVICE_ID_GET_LOG_INFO.to_ne_bytes().into();
                                     let apid_buf = apid.as_buf();
+                                    // a dlt msg is limited to a len of u16::MAX (15 bytes are used before the name):
+                                    let name_bytes = name.as_bytes();
+                                    let name_bytes = &name_bytes[..name_bytes.len().min(
+                                        u16::MAX as usize - self.len_wo_payload as usize - 15,
+                                    )];
                                     payload.extend(
                                         [7u8]
                                             .into_iter()
                                             .chain(1u16.to_ne_bytes().into_iter()) // 1 app id, CAN plugin expects == 1
                                             .chain(apid_buf.iter().copied())
                                             .chain(0u16.to_ne_bytes().into_iter()) // 0 ctx ids
-                                            .chain((name.len() as u16).to_ne_bytes().into_iter()) // len of apid desc
-                                            .chain(name.as_bytes().iter().copied()),
+                                            .chain((name_bytes.len() as u16).to_ne_bytes().into_iter()) // len of apid desc
+                                            .chain(name_bytes.iter().copied()),
                                     );
                                     // return a DltMessage with the LOG INFO APID incl. the BusMapping name
                                     let index = self.index;
